@@ -33,8 +33,8 @@ def run_fault(ctx, variant, nprog):
         ctx.violation("fault-crash-" + variant, {"kind": "crash", "rc": rc, "tail": lines[-15:], "witness": "fault_drv crashed",
                                                  "replay_cmd": "%s %d %d" % (drv, ctx.seed, nprog)}, True,
                       "fault_drv (%s) rc=%d: %s" % (variant, rc, " | ".join(lines[-3:])))
-    # known findings re-confirmed on the real code
-    for l in lines:
+    # known findings re-confirmed on the real code (they belong to C10 only)
+    for l in (lines if ctx.pid == "C10" else []):
         if l.startswith("D7 ") and "other-exception" in l:
             ctx.violation("d7", {"kind": "exception-type", "witness": "Parameter::stats(unknown-name) -> " + l[3:]}, True)
         elif l.startswith("D7 ") and "Error" not in l:
@@ -42,6 +42,31 @@ def run_fault(ctx, variant, nprog):
         if l.startswith("D21 ") and "update=Error" in l and "add=ok" in l:
             ctx.violation("d21", {"kind": "failing-call-changes-state", "witness": "Optimizer::update() with registered invalid parameter: " + l}, True)
     ctx.add_samples(["fault_drv %s: %s" % (variant, info["summary"])])
+
+
+def run_random_recovery(ctx):
+    """Allocation failure at every index k in programs with Random* sources: retry, every observed node
+    and the device stream must equal the never-failing run bit for bit (theorem alloc_failure_recoverable_random)."""
+    drv = pv.build_harness("plain", "fault_drv")
+    rc, out = pv.sh("%s random %d" % (drv, 6 if ctx.quick() else 40), timeout=900)
+    lines = out.splitlines()
+    summ = [l for l in lines if l.startswith("SUMMARY")]
+    ctx.cov.setdefault("fault_drv", {})["random-recovery"] = {"rc": rc, "summary": summ[-1] if summ else "<none>"}
+    for l in [l for l in lines if l.startswith("FAIL")][:3]:
+        ctx.violation("fault-random", {"kind": "fault-injection", "line": l, "witness": "fault_drv random :: " + l,
+                                       "replay_cmd": "%s random 6" % drv}, True, l)
+    if rc != 0 or not summ:
+        ctx.violation("fault-random-crash", {"kind": "crash", "rc": rc, "tail": lines[-10:], "witness": "fault_drv random crashed"}, True,
+                      "fault_drv random rc=%d" % rc)
+
+
+def confirm_d32(ctx):
+    """Known finding D32 (needs ~13 GiB and ~30 s: thorough tier only)."""
+    drv = pv.build_harness("plain", "matmul_bw_probe")
+    rc, out = pv.sh("%s 32768" % drv, timeout=600)
+    ctx.cov["d32_probe"] = out.strip()[-300:]
+    if "UPDATED before the Error" in out:
+        ctx.violation("d32", {"kind": "failing-call-changes-state", "witness": "matmul_bw temporaries exceed 2^32: ga updated before Error :: " + out.strip()[-200:]}, True)
 
 
 def run(ctx):
@@ -52,6 +77,9 @@ def run(ctx):
     n = 4000 if ctx.quick() else 50000
     cases, bad = tc.run_stream(ctx, "rejected-calls-keep-operands", BW_INPLACE, n, backend="naive")
     tc.optional_part(ctx, "frontend", "run_part", 3000 if ctx.quick() else 40000)
+    run_random_recovery(ctx)
+    if not ctx.quick():
+        confirm_d32(ctx)
     ctx.cov["rule"] = ("fault_drv: every accessor/arithmetic use of default-constructed and moved-from tensors/nodes/parameters, nodes of two graphs (incl. the scalar-first form), tensors of two devices, "
                        "rejected optimizer/model calls with before/after snapshots, allocation failure injected at EVERY allocation index k of tensor/parameter construction and of forward evaluation of 6 program families "
                        "followed by re-evaluation that must equal the never-failing run bit for bit; tensor stream: backward / in-place Device entry points with invalid shapes, axes and offsets near 2^32 whose "
